@@ -695,6 +695,12 @@ class Step(Node):
         # (which never fires delete triggers).
         self.db.execute("DELETE FROM step WHERE node = :node", {"node": self.i})
 
+        # A recycled node may still carry the environment variables declared by its former
+        # definition. They reference `node`, not `step`, so the `DELETE` above leaves them in
+        # place, and a variable that the new definition no longer declares would stick forever.
+        # Variables amended at run time are left alone: `reset_for_rerun` drops those.
+        self.db.execute("DELETE FROM env_var WHERE node = :node AND NOT dynamic", {"node": self.i})
+
         # The `step_hash`/`step_outcome` satellite rows are untouched
         # by either `DELETE` or `INSERT`, since both only ever reference `node`, not `step`,
         # so a recycled step's stored hash remains available for
